@@ -77,7 +77,7 @@ def run(prop, tier, replay):
         mc_runs = [(rot[seed % 5], 3)]
     else:
         k, big_k = 4, 5
-        deep = {"dec", rot[1 + seed % 4]}      # 2.0 M states each; the others at 3 entries (123 k states)
+        deep = {rot[seed % 5]}                 # 2.0 M states; the others at 3 entries (123 k states each)
         mc_runs = [(e, 4 if e in deep else 3) for e in rot]
     embs = list(EMBEDDINGS)
     if replay:
